@@ -159,6 +159,15 @@ func c15Eval(s *vh.Session, c c15Case, dir string) (string, string) {
 		run = s.RunCLI(filepath.Join(dir, "alpha"), append([]string{"gen", "-cwd", ".."}, c.Tree.CLIPatterns()...)...)
 	case "elsewhere-cwd":
 		run = s.RunCLI(os.TempDir(), append([]string{"gen", "-cwd", dir}, c.Tree.CLIPatterns()...)...)
+	case "symlink-cwd":
+		// the working directory is reached through a symbolic link
+		link := dir + "-link"
+		_ = os.Remove(link)
+		if err := os.Symlink(dir, link); err != nil {
+			return "", "INFRA: " + err.Error()
+		}
+		defer os.Remove(link)
+		run = s.RunCLI(link, append([]string{"gen"}, c.Tree.CLIPatterns()...)...)
 	default:
 		run = s.RunCLI(dir, append([]string{"gen"}, c.Tree.CLIPatterns()...)...)
 	}
@@ -273,6 +282,17 @@ func TestC15(t *testing.T) {
 			}
 		}
 		modes := []string{"root", "elsewhere-cwd"}
+		physical := false
+		for _, cv := range tree.Convs {
+			if strings.HasPrefix(cv.OutFile, "/") {
+				physical = true
+			}
+		}
+		if !physical {
+			// (an absolute output path spells the physical location; it is not mixed with a
+			// working directory given through a symbolic link)
+			modes = append(modes, "symlink-cwd")
+		}
 		if hasAlpha {
 			modes = append(modes, "subdir-cwd")
 		}
